@@ -52,20 +52,26 @@ ASSUMPTIONS = ['gevent greenlets only switch at blocking calls; a greenlet made 
                'a connect that meets silence ends with the kernel time-out (slow failure); a connect blocked for ever is treated '
                'as still in progress (the transport then reports Open with the request still in flight: not idle)',
                'timers fire at their virtual due time (Mux.step MTick cannot skip an armed timer)',
-               '"reports open and idle" is evaluated when no Open() and no request is in progress']
+               '"reports open and idle" is evaluated when no Open() and no request is in progress',
+               'fixed finding F26 (monitor signature mux/open-after-shutdown-during-initial-ping): a ThriftMux transport whose '
+               'connection fails between reading the first Rping and processing it was shut down and then reported Open again; '
+               '_OpenImpl now raises when the transport was shut down meanwhile (model: MOResume on a Closed transport)']
 MANIFEST = {
     'text': ('Theorems over every label sequence (every fault position, fault kind, schedule) of the Gallina transcription of the '
-             'serial and the ThriftMux transport: a failing write / header read / body read / reconnect fails the in-flight call '
-             'exactly once, clears _processing, reports Closed and raises on_faulted once per connection; globally every accepted '
-             'call gets at most one message and exactly one once the transport is idle / closed; reported-open-and-idle implies a '
-             'connected socket and an enabled, wire-reaching next request; _Shutdown posts one ClientError to every tagged call '
-             '(queued or written), empties map and queue, is idempotent, later requests get "Sink not open"; an unanswered ping '
-             'shuts the transport down exactly 5 s after it was queued and the ping loop pings every 30-40 s while open. The '
-             'transcription is compared slice by slice with the real transports on a fault-position sweep; an independent monitor '
-             'checks the property statement on the event log.'),
+             'serial and the ThriftMux transport. Serial: a failing write / header read / body read / reconnect fails the in-flight '
+             'call exactly once, clears _processing, reports Closed and raises on_faulted iff it did not already report Closed; a '
+             'failed connect of Open() reports Closed and raises on_faulted; globally at most one message per call, exactly one once '
+             'it is no longer in flight (unless Close() killed it); on_faulted at most once per connection; reported-open-and-idle '
+             'implies a connected socket and an enabled, wire-reaching next request. Mux: _Shutdown posts exactly one ClientError to '
+             'every tagged call (written or queued), empties map and queue, is idempotent, later requests get "Sink not open"; '
+             'globally exactly one message per tagged call once the transport is closed; an unanswered ping shuts the transport down '
+             'exactly 5 s after it was queued and the ping loop pings every 30-40 s while open; a mux transport that reports Open '
+             'has both loops alive and carries the next request, and raises on_faulted at most once (full strength since the '
+             'open-after-shutdown defect F26 was repaired). The transcription is compared slice by slice with the real transports on a fault-position '
+             'sweep; an independent monitor checks the property statement on the event log.'),
     'note': ('Trusted: Coq kernel; simulation world, scripted peers, logging proxies; greenlet atomicity between blocking calls. '
-             'Owner contract (requests only after Open() completed, no Close() during a connect, mux sinks opened once) is a '
-             'hypothesis of the serial theorems (run with usage_ok). All theorems closed under the global context.'),
+             'Owner contract (requests only after Open() completed, sinks opened once, no Close() during a connect) is a hypothesis '
+             'of the serial theorems (Serial.run enforces usage_ok). All theorems closed under the global context.'),
     'technique': 'Coq proof (inductive invariants over all label sequences of two transition systems) + trace-driven differential execution model vs code',
     'design_ref': 'DESIGN.md section 5, C08; section 6, F7, F21 (F8)',
 }
@@ -816,6 +822,14 @@ def stats(cases, obs):
             nxt = ev[i + 1] if i + 1 < len(ev) else None
             if nxt is None or not (nxt[0] == 'w' and nxt[1] == 'write-begin'):
               skipped += 1
+  resumes = collections.Counter()
+  for c, o in zip(cases, obs):
+    if isinstance(o, dict) and 'slices' in o:
+      for sl in o['slices']:
+        for e in sl['ev']:
+          if e[0] == 'arget':
+            resumes['MOResume/%s' % ('ok' if e[1] else 'failed')] += 1
+  lab.update(resumes)
   return {'mux_frames_dropped_after_deadline': skipped, 'model_labels_exercised': dict(sorted(lab.items())), 'connection_failures_injected': dict(sorted(fail.items())),
           'messages_by_kind': dict(sorted(posts.items())), 'cases_with_connection_failure': nfail_cases,
           'greenlet_crashes_observed': crashes}
